@@ -77,6 +77,7 @@ def build(repo):
     cuts.append(ac)
     common.r24_inline_closures(ac)
     nsw = common.r15_starts_with_lit(ac)
+    common.r15_contains_lit(ac)
     ac.sub(r"\bl\.clone\(\)", "string_clone(l)", "R11 String::clone -> shim", expect=(0, 4))
     fm = common.Fmt({"l": ("str", "l"), "inst.dasm_operand": ("str", "&inst.dasm_operand"), "inline_counter": ("int", None)})
     fm.apply(ac, expect=(1, 8))
@@ -85,7 +86,7 @@ def build(repo):
         ensures
             final(self).code@.len() == old(self).code@.len() + code.code@.len(), //@ C14:append-length
             final(self).code@.subrange(0, old(self).code@.len() as int) =~= old(self).code@, //@ C14:append-frame
-            forall|k: int| 0 <= k < code.code@.len() ==> renamed(code.code@[k], #[trigger] final(self).code@[old(self).code@.len() + k], inline_counter), //@ C14,C13,C04,C18:append-renamed-clone
+            forall|k: int| 0 <= k < code.code@.len() ==> renamed(code.code@[k], #[trigger] final(self).code@[old(self).code@.len() + k], inline_counter), //@ C14,C13,C04,C18,C16:append-renamed-clone
 """, expect_sig="fn append_code(&mut self, code: &AssemblyCode, inline_counter: u32)")
     ac.loop_spec(1, r"^for i in &code\.code$", """
             invariant
@@ -102,13 +103,13 @@ def build(repo):
                 // concatenation is associative (extensional equality hint)
                 if *i is Label { assert(((*i)->Label_0@ + "inline"@) + dec(inline_counter as int) =~= (*i)->Label_0@ + suffix(inline_counter)); }
                 if *i is Instruction { assert(((*i)->Instruction_0.dasm_operand@ + "inline"@) + dec(inline_counter as int) =~= (*i)->Instruction_0.dasm_operand@ + suffix(inline_counter)); }
-                assert(renamed(*i, self.code@[before.len() as int], inline_counter)); //@ C14,C13,C04,C18:append-line-renamed
+                assert(renamed(*i, self.code@[before.len() as int], inline_counter)); //@ C14,C13,C04,C18,C16:append-line-renamed
                 assert forall|k: int| 0 <= k < it.index@ implies renamed(code.code@[k], #[trigger] self.code@[old(self).code@.len() + k], inline_counter) by {
                     assert(self.code@[old(self).code@.len() + k] == before[old(self).code@.len() + k]);
                 }
             }
 """)
-    text = common.PRELUDE + common.header_comment(NAME, cuts) + "verus! {\n" + types + common.DEC_SPECS + SPECS + common.STR_PREFIX_SHIM + fm.text() + \
+    text = common.PRELUDE + common.header_comment(NAME, cuts) + "verus! {\n" + types + common.DEC_SPECS + SPECS + common.STR_PREFIX_SHIM + common.STR_CONTAINS_SHIM + fm.text() + \
         "impl AssemblyCode {\n" + ac.text + "\n}\n" + common.CANARY + "\n} // verus!\n"
     u.text[None] = text
     u.rewrites = common.collect_rewrites(cuts)
